@@ -23,7 +23,12 @@ RULE = ("value/uncertainty pairs built from decimal mantissas of 1-12 digits tim
         "within 1 unit of the last place); cases whose model output has more than 12 digits are "
         "outside the statement's domain and counted as skipped; non-trivial = rounding carries into "
         "the next decade, a zero, or a negative-order scientific case; distinct by hash of "
-        "(v, e, configuration)")
+        "(v, e, configuration). HISTORIES: sessions of 2-5 prints about one pair (and its neighbours) "
+        "under configurations differing in exactly the mode / style / number of figures / nothing, "
+        "reached by reset+setters, setters only or the settings object, printed through str, repr, an "
+        "array, with name and unit, through one object kept over the session, and after re-assigning "
+        "value and uncertainty of a printed object; every print judged. Every failure is re-run in a "
+        "new interpreter (alone, else after its minimised history, which the replay file carries)")
 ASSUMPTIONS = ["inputs are finite floats with magnitudes in [1e-12, 1e12], uncertainty >= 0, at most "
                "12 printed digits, n in 1..6 (the statement's domain)",
                "the model is exact over the rationals; binary rounding inside x / back_off, 10 ** k "
@@ -65,8 +70,29 @@ def parse(s):
             "p": int(m.group(6)) if sci else 0, "bare": es == "0", "sci": sci, "latex": pm != "+/-"}
 
 
-def configure(q, style, mode, n):
-    q.reset_default_configuration()
+ROUTES = ["reset", "keep", "settings-object"]
+HOWS_HISTORY = ["str", "str", "kept", "kept", "repr", "array", "named", "edited"]
+
+
+def configure(q, style, mode, n, route="reset"):
+    """reach the configuration (style, mode, n).  Routes: `reset` = restore the defaults, then the
+    module-level setters (what every batch case does); `keep` = only the setters, on top of whatever
+    the session left behind; `settings-object` = through attributes / methods of q.get_settings(),
+    the style as an enum member.  There is no setter back to the automatic mode: it is reached
+    through a reset on every route."""
+    if route == "reset" or mode == "auto":
+        q.reset_default_configuration()
+    if route == "settings-object":
+        st = q.get_settings()
+        st.print_style = {"default": q.PrintStyle.DEFAULT, "scientific": q.PrintStyle.SCIENTIFIC,
+                          "latex": q.PrintStyle.LATEX}[style]
+        if mode == "value":
+            st.set_sig_figs_for_value(n)
+        elif mode == "error":
+            st.set_sig_figs_for_error(n)
+        else:
+            st.sig_fig_value = n
+        return
     q.set_print_style(style)
     if mode == "value":
         q.set_sig_figs_for_value(n)
@@ -76,14 +102,34 @@ def configure(q, style, mode, n):
         q.get_settings().sig_fig_value = n   # automatic mode with n figures
 
 
-def show(q, v, e, how="str"):
+def show(q, v, e, how="str", frm=None, kept=None):
     try:
         if how == "str":
             return str(q.Measurement(v, e))
+        if how == "kept":
+            # ONE object per pair for the whole session: printed again under the next configuration
+            if kept is None:
+                kept = {}
+            if (v, e) not in kept:
+                kept[(v, e)] = q.Measurement(v, e)
+            return str(kept[(v, e)])
         if how == "repr":
             r = repr(q.Measurement(v, e))
             m = re.fullmatch(r"\w+\((.*)\)", r)
             return m.group(1) if m else "UNPARSED " + r
+        if how == "named":
+            # name and unit around the pair: "x = <pair> [m]"
+            s = str(q.Measurement(v, e, unit="m", name="x"))
+            return s[4:-4] if s.startswith("x = ") and s.endswith(" [m]") else "UNPARSED " + s
+        if how == "edited":
+            # the SAME object printed before and after its value and uncertainty were re-assigned:
+            # the text must be about the pair the object holds now
+            v0, e0 = frm if frm else (1.0, 0.5)
+            x = q.Measurement(v0, e0)
+            str(x)
+            x.value = v
+            x.error = e
+            return str(x)
         a = q.MeasurementArray([v, v], [e, e])
         s = str(a)
         m = re.fullmatch(r"\[ (.*), (.*) \]", s)
@@ -92,6 +138,49 @@ def show(q, v, e, how="str"):
         return m.group(1)
     except Exception as ex:  # noqa: BLE001
         return "EXC {}: {}".format(type(ex).__name__, ex)
+
+
+FIRST_STEP = None
+
+
+def session(q, steps):
+    """print the steps one after the other in THIS interpreter (printing must not depend on what
+    was printed or configured before, so the order must not matter); returns the texts"""
+    global FIRST_STEP
+    outs = []
+    last = None
+    kept = {}
+    if FIRST_STEP is None and steps:
+        FIRST_STEP = step_of(steps[0])        # the very first print of this interpreter
+    for c in steps:
+        route = c.get("route", "reset")
+        key = (c["style"], c["mode"], c["n"])
+        if key != last or route != "reset":
+            configure(q, *key, route=route)
+            last = key
+        outs.append(show(q, c["v"], c["e"], c.get("how", "str"), c.get("from"), kept))
+    q.reset_default_configuration()
+    return outs
+
+
+def fresh_session(steps):
+    """the same in a NEW interpreter (no earlier print, no earlier configuration): what a replay
+    file must reproduce on its own"""
+    import os
+    import subprocess
+    import sys
+    import common as C
+    code = ("import sys, json\n"
+            "sys.path[:0] = [{!r}, {!r}]\n"
+            "from props import c09\n"
+            "import qexpy as q\n"
+            "print('\\n' + json.dumps(c09.session(q, json.load(sys.stdin))))\n").format(
+                os.path.dirname(os.path.dirname(os.path.abspath(__file__))), C.REPO)
+    p = subprocess.run([sys.executable, "-c", code], input=json.dumps(steps), capture_output=True,
+                       text=True, timeout=300)
+    if p.returncode != 0:
+        raise RuntimeError("fresh interpreter failed: " + p.stderr[-400:])
+    return json.loads(p.stdout.strip().splitlines()[-1])
 
 
 def dec_ratio(x):
@@ -190,18 +279,14 @@ def classify(case, p, spec):
     return "rounding"
 
 
-def run(ctx, cases, ref=False):
-    """cases: dicts v, e, style, mode, n, how.  Returns (failures, nontrivial, skipped, dist, samples)."""
-    import qexpy as q
-    outs = []
-    last = None
-    for c in cases:
-        key = (c["style"], c["mode"], c["n"])
-        if key != last:
-            configure(q, *key)
-            last = key
-        outs.append(show(q, c["v"], c["e"], c.get("how", "str")))
-    q.reset_default_configuration()
+def run(ctx, cases, ref=False, outs=None):
+    """cases: dicts v, e, style, mode, n, how (+ route, from, history).  `outs`: the texts when they were
+    produced elsewhere (history scenarios, a fresh interpreter); otherwise the cases are printed one
+    after the other in this interpreter.
+    Returns (failures, nontrivial, skipped, dist, samples)."""
+    if outs is None:
+        import qexpy as q
+        outs = session(q, cases)
     lines = []
     parsed = []
     for c, s in zip(cases, outs):
@@ -229,6 +314,11 @@ def run(ctx, cases, ref=False):
             i += 1
         inp = {"v": c["v"], "e": c["e"], "style": c["style"], "mode": c["mode"], "n": c["n"],
                "how": c.get("how", "str"), "v_exact": ratio(c["v"]), "e_exact": ratio(c["e"])}
+        for k in ("route", "from", "history", "scenario"):
+            if c.get(k) is not None:
+                inp[k] = c[k]
+        if c.get("batch_index") is not None:
+            inp["batch_index"] = c["batch_index"]
         if spec is not None and (spec.get("fail") == "unparsed" or (
                 "parsed" in spec and any(str(spec["parsed"][k]) != str(p[k])
                                          for k in ("mv", "me", "dv", "de", "p", "sci", "latex")))):
@@ -260,6 +350,8 @@ def run(ctx, cases, ref=False):
         dist["cfg:{}/{}".format(c["style"], c["mode"])] += 1
         dist["n:{}".format(c["n"])] += 1
         dist["how:" + c.get("how", "str")] += 1
+        if c.get("scenario"):
+            dist["history-route:" + c.get("route", "reset")] += 1
         cls = "{}:{}".format(c["style"], c["mode"])
         if s.startswith("UNPARSED"):
             failures.append({"signature": "c09:wrapper-format:" + c.get("how", "str"),
@@ -413,10 +505,164 @@ def make_cases(ctx, n_pairs, dist):
     return cases
 
 
+# ------------------------------------------------------------------ histories
+SCENARIOS = ["mode-switch", "style-switch", "n-switch", "repeat", "neighbour-pair", "mixed"]
+STEP_KEYS = ("v", "e", "style", "mode", "n", "how", "route", "from")
+
+
+def step_of(c):
+    return {k: c[k] for k in STEP_KEYS if c.get(k) is not None}
+
+
+def gen_history(rng, dist):
+    """a short session: 2-5 prints about ONE pair (or a pair and its neighbours: same value with
+    another uncertainty, same uncertainty with another value) under configurations that differ in
+    exactly the mode / the style / the number of figures, or not at all; the configuration is reached
+    with or without a reset, through the module functions or the settings object; the pair is printed
+    through str / repr / an array / with name and unit / after re-assigning value and uncertainty of
+    an object that was already printed.  EVERY print of the session is judged (the printed text is a
+    function of the pair and the configuration in force, whatever was printed or configured before);
+    a failing step carries the steps before it as its `history`."""
+    while True:
+        v, e = gen_pair(rng, dist)
+        v2, e2 = gen_pair(rng, dist)
+        if in_domain(v, e) and in_domain(v2, e2):
+            break
+    kind = rng.choice(SCENARIOS)
+    style, mode, n = rng.choice(STYLES), rng.choice(MODES), rng.randint(1, 6)
+    pairs = [(v, e)]
+    if kind in ("neighbour-pair", "mixed"):
+        pairs += [(v, e2), (v2, e)]
+    steps = []
+    for i in range(rng.randint(2, 5)):
+        if i:
+            what = kind if kind not in ("mixed", "neighbour-pair") else rng.choice(
+                ["mode-switch", "style-switch", "n-switch", "repeat"])
+            if what == "mode-switch":
+                mode = rng.choice([m for m in MODES if m != mode])
+            elif what == "style-switch":
+                style = rng.choice([x for x in STYLES if x != style])
+            elif what == "n-switch":
+                n = rng.choice([k for k in range(1, 7) if k != n])
+        pv, pe = pairs[0] if kind not in ("neighbour-pair", "mixed") else rng.choice(pairs)
+        st = {"v": pv, "e": pe, "style": style, "mode": mode, "n": n,
+              "how": rng.choice(HOWS_HISTORY), "route": rng.choice(ROUTES)}
+        if st["how"] == "edited":
+            st["from"] = list(rng.choice(pairs + [(v2, e2)]))
+        steps.append(st)
+    dist["history-scenario:" + kind] += 1
+    return kind, steps
+
+
+def run_histories(ctx, n_sessions, dist, ref=False):
+    import qexpy as q
+    cases, outs = [], []
+    for _ in range(n_sessions):
+        kind, steps = gen_history(ctx.rng, dist)
+        texts = session(q, steps)
+        for i, (st, t) in enumerate(zip(steps, texts)):
+            cases.append(dict(st, history=[dict(x) for x in steps[:i]], scenario=kind))
+            outs.append(t)
+            dist["history-step:prints-before-the-judged-one:{}".format(i)] += 1
+    f, nt, sk, d, sm = run(ctx, cases, ref=ref, outs=outs)
+    return len(cases), f, nt, sk, d, sm
+
+
+def fresh_many(sessions):
+    """several independent new interpreters at once (8 in parallel) -> list of lists of texts"""
+    from concurrent.futures import ThreadPoolExecutor
+    if not sessions:
+        return []
+    with ThreadPoolExecutor(max_workers=8) as ex:
+        return list(ex.map(fresh_session, sessions))
+
+
+def fresh_verdicts(ctx, sessions, kinds, ref=False):
+    """for every session: does its LAST step fail (with a failure of the given kind) when the steps are
+    printed in a new interpreter?"""
+    outs = fresh_many(sessions)
+    lasts = [dict(step_of(steps[-1]), batch_index=k) for k, steps in enumerate(sessions)]
+    fs = run(ctx, lasts, ref=ref, outs=[o[-1] for o in outs])[0]      # one model call for all
+    bad = {f["input"].get("batch_index") for f in fs
+           if isinstance(f.get("input"), dict) and f.get("kind") == kinds[f["input"].get("batch_index", 0)]
+           and not f["signature"].startswith("c09:spec-selftest")}
+    return [k in bad for k in range(len(sessions))]
+
+
+def make_standalone(ctx, fails, batch, dist, ref=False, budget=6):
+    """A reported failure must reproduce from its replay file alone.  Every case is printed in a NEW
+    interpreter: alone; if that passes, after its recorded history (history scenarios) or after the
+    earlier prints of the same pair in this run (batch), which is then minimised (for at most
+    `budget` failures; the rest is marked unverified).  The failure records are rewritten."""
+    fails = [f for f in fails if isinstance(f.get("input"), dict) and "style" in f["input"]]
+    if not fails:
+        return
+    alone = fresh_verdicts(ctx, [[step_of(f["input"])] for f in fails], [f.get("kind") for f in fails], ref)
+    for f, ok in zip(fails, alone):
+        inp = f["input"]
+        idx = inp.pop("batch_index", None)
+        if ok:
+            dist["failure reproduced in a fresh interpreter: alone"] += 1
+            inp.pop("history", None)
+            f["standalone"] = "alone"
+            continue
+        if budget <= 0:
+            f["standalone"] = "unverified"
+            inp.pop("history", None)
+            continue
+        budget -= 1
+        case, kind = step_of(inp), f.get("kind")
+        hist = [step_of(h) for h in inp.get("history") or []]
+        if not hist and idx is not None:
+            hist = [step_of(b) for b in batch[:idx] if b["v"] == case["v"] and b["e"] == case["e"]][-32:]
+        if FIRST_STEP is not None and FIRST_STEP not in hist and FIRST_STEP != case:
+            hist = [FIRST_STEP] + hist        # state fixed by the first print of the interpreter
+        best = None
+        try:
+            if hist and fresh_verdicts(ctx, [hist + [case]], [kind], ref)[0]:
+                # minimise: a single earlier print first, then greedy removal
+                single = fresh_verdicts(ctx, [[h, case] for h in hist], [kind] * len(hist), ref)
+                if any(single):
+                    best = [hist[single.index(True)]]
+                else:
+                    best = list(hist)
+                    for j in range(len(best) - 1, -1, -1):
+                        trial = best[:j] + best[j + 1:]
+                        if trial and fresh_verdicts(ctx, [trial + [case]], [kind], ref)[0]:
+                            best = trial
+        except Exception as ex:  # noqa: BLE001
+            f["standalone_error"] = "{}: {}".format(type(ex).__name__, ex)
+        if best:
+            inp["history"] = best
+            f["standalone"] = "with-history"
+            f["signature"] += ":after-history"
+            f["what"] += (" -- only after {} earlier print(s) in the same interpreter (the replay file "
+                          "carries them as `history`); printed alone in a fresh interpreter the pair is "
+                          "right".format(len(best)))
+            f["clause"] = (f.get("clause") or "PrintedOK") + "; for every configuration (the text is a " \
+                "function of the pair and the configuration in force)"
+            dist["failure reproduced in a fresh interpreter: after a minimised history"] += 1
+            continue
+        inp.pop("history", None)
+        f["standalone"] = "not-reproduced"
+        f["what"] += (" -- seen in the session of this run; NOT reproduced in a fresh interpreter, neither "
+                      "alone nor after the earlier prints of the same pair")
+        dist["failure not reproduced in a fresh interpreter"] += 1
+
+
 def correspond(ctx, ref=False, boost=1):
     dist = collections.Counter()
     cases = corpus() + make_cases(ctx, ctx.n(450, 24000) * boost, dist)
+    for i, c in enumerate(cases):
+        c["batch_index"] = i
     failures, nontriv, skipped, d2, samples = [], set(), 0, collections.Counter(), []
+    # sessions about one pair first (in a clean interpreter when the corpus is empty)
+    nh, f, nt, sk, d, sm = run_histories(ctx, ctx.n(120, 6000) * boost, dist, ref=ref)
+    failures += f
+    nontriv |= nt
+    skipped += sk
+    d2.update(d)
+    samples += sm[:2]
     CH = 40000
     for i in range(0, len(cases), CH):
         f, nt, sk, d, sm = run(ctx, cases[i:i + CH], ref=ref)
@@ -426,13 +672,32 @@ def correspond(ctx, ref=False, boost=1):
         d2.update(d)
         samples += sm
     dist.update(d2)
-    seen, uniq = set(), []
-    for f in sorted(failures, key=lambda f: (len(str(f["input"]["v"])) + len(str(f["input"]["e"]))
-                                             if isinstance(f.get("input"), dict) else 0)):
-        if f["signature"] not in seen:
-            seen.add(f["signature"])
-            uniq.append(f)
-    return {"evaluations": len(cases), "nontrivial": nontriv, "failures": uniq,
+    def size(f):
+        inp = f.get("input")
+        if not isinstance(inp, dict):
+            return 0
+        return len(str(inp["v"])) + len(str(inp["e"])) + 40 * len(inp.get("history") or [])
+    # per signature two representatives: the smallest case printed in the batch and the smallest step
+    # of a history scenario (it knows what was printed before it)
+    groups = collections.OrderedDict()
+    for f in sorted(failures, key=size):
+        g = groups.setdefault(f["signature"], {})
+        k = "hist" if isinstance(f.get("input"), dict) and f["input"].get("history") else "plain"
+        g.setdefault(k, f)
+    reps = [f for g in groups.values() for f in g.values()]
+    # every reported failure is re-run in a new interpreter (at most 40; violations first, those with a
+    # recorded history first: their minimisation is short)
+    reps.sort(key=lambda f: (0 if f.get("kind") == "violation" else 1,
+                             0 if isinstance(f.get("input"), dict) and f["input"].get("history") else 1))
+    make_standalone(ctx, reps[:40], cases, dist, ref=ref)
+    for f in reps[40:]:
+        f["standalone"] = "unverified"
+    rank = {"alone": 0, "with-history": 1, "not-reproduced": 2, "unverified": 3}
+    uniq = [min(g.values(), key=lambda f: rank.get(f.get("standalone"), 4)) for g in groups.values()]
+    for f in uniq:
+        if isinstance(f.get("input"), dict):
+            f["input"].pop("batch_index", None)
+    return {"evaluations": len(cases) + nh, "nontrivial": nontriv, "failures": uniq,
             "samples": samples[:5], "distribution": dict(dist), "skipped": skipped,
             "exhaustive": False}
 
@@ -445,7 +710,9 @@ def search(ctx, broken):
     ind = [f for f in r["failures"] if f.get("oracle") == "independent"]
     out["failures"] += ind
     out["strategy"].append("PrintedOK evaluated on {} implementation outputs ({} skipped as out of "
-                           "domain): {} failing signatures".format(r["evaluations"], r["skipped"], len(ind)))
+                           "domain; sessions about one pair under changing configurations included; "
+                           "every failure re-run in a fresh interpreter): {} failing signatures".format(
+                               r["evaluations"], r["skipped"], len(ind)))
     return out
 
 
@@ -454,9 +721,23 @@ def replay(ctx, rp):
     c = f.get("input")
     if not isinstance(c, dict) or "style" not in c:
         return {"fails": False, "note": "replay file carries no concrete input", "payload": rp}
-    fs, _, _, _, _ = run(ctx, [c])
+    case = step_of(c)
+    hist = [step_of(h) for h in c.get("history") or []]
+    if hist:
+        # the history and the judged print in a NEW interpreter: self-contained
+        outs = fresh_session(hist + [case])
+        fs = run(ctx, [dict(case, history=hist)], outs=[outs[-1]])[0]
+        return {"fails": bool(fs), "impl": outs[-1], "history_outputs": outs[:-1], "failures": fs}
     import qexpy as q
-    configure(q, c["style"], c["mode"], c["n"])
-    s = show(q, c["v"], c["e"], c.get("how", "str"))
-    q.reset_default_configuration()
+    s = session(q, [case])[0]
+    fs = run(ctx, [case], outs=[s])[0]
+    if fs:
+        # this interpreter may have printed before (corpus cases are replayed one after the other):
+        # a case without history must fail on its own
+        s2 = fresh_session([case])[0]
+        fs2 = run(ctx, [case], outs=[s2])[0]
+        if not fs2:
+            return {"fails": False, "impl": s2, "note": "fails only after the earlier prints of this "
+                    "interpreter ({!r}); alone in a fresh interpreter it prints {!r}".format(s, s2)}
+        s, fs = s2, fs2
     return {"fails": bool(fs), "impl": s, "failures": fs}
